@@ -646,6 +646,15 @@ class Runner:
         return d
 
     def report(self, cls, detail, method_name, state=None):
+        cause = getattr(self, "cause", None)
+        if cause and cls in ("recheck-fails", "final-check-fails", "recheck-other-result"):
+            cls = "%s:%s" % (cls, cause)
+            key = "%s:%s" % (cls, method_name)
+            what = "%s after %s on %s: %s" % (cls, method_name, self.goal.ident(), detail)
+            rp = self.replay_dict({"invariant": cls, "detail": detail})
+            self.ctx.violation(key, what, rp)
+            self.ctx.count("violation:" + cls)
+            return
         if cls.startswith("import-fails:"):
             key = cls                      # a diagnosed cause: independent of the step that exposed it
         else:
@@ -691,6 +700,7 @@ class Runner:
         target = copy.copy(self.state) if on_copy else self.state
         entry = {"step": clean_step(step), "on_copy": on_copy, "adopt": adopt, "source": source}
         outcome, err = "ok", None
+        self.cause = step_cause(self.state, step)
         try:
             with time_limit(STEP_LIMIT):
                 method.apply_method(target, copy.deepcopy(step))
@@ -766,6 +776,33 @@ class Runner:
                 self.ctx.count("rebuild-failed")
                 return
         self.state = st
+
+
+def step_cause(state, step):
+    """Names two special situations of a step exactly (used in violation keys, so that the recorded
+    known findings do not hide any other failure of the same method):
+      assumption-cited-twice -- revert_intro where the `intros` line cites the assumption twice
+                                (introduction identified two equal assumptions A --> A --> C);
+      repeated-exists-elim   -- exists_elim in a scope whose `intros` line already carries the
+                                arguments of an earlier exists_elim."""
+    try:
+        name = step.get("method_name")
+        gp = tuple(int(x) for x in str(step["goal_id"]).split("."))
+        if name == "revert_intro":
+            nxt = state.get_proof_item(gp[:-1] + (gp[-1] + 1,))
+            f = tuple(int(x) for x in step["fact_ids"][0].split("."))
+            if [p.id for p in nxt.prevs].count(f) > 1:
+                return "assumption-cited-twice"
+        if name == "exists_elim":
+            i = gp[-1] + 1
+            while True:
+                it = state.get_proof_item(gp[:-1] + (i,))
+                if it.rule == "intros":
+                    return "repeated-exists-elim" if it.args else None
+                i += 1
+    except Exception:  # noqa
+        return None
+    return None
 
 
 def clean_step(step):
@@ -1330,8 +1367,9 @@ MANIFEST = {
             "export->import identity, copy isolation. Lean: executable model of the proof-tree structure and of add_line_before / remove_line / "
             "set_line / replace_id / find_goal / apply_tactic, tied to the code by replaying every recorded primitive call and the ItemID "
             "arithmetic on the model; theorems: shift_preserves_visibility, visibility_transitive, add_line/set_line/replace_preserves_citations, "
-            "edits_preserve_citations_partial, goal_preserved_nested_partial. Not proved: numbering preservation, remove_line, top-level "
-            "goal preservation, apply_tactic composite, export/import (oracle + correspondence only).",
+            "edits_preserve_citations_partial, goal_preserved_nested_partial, goal_preserved_partial (sequences of add_line_before/remove_line/"
+            "set_line). Not proved: numbering preservation (ids = positions), citations under remove_line, replace_id/apply_tactic as "
+            "composites, export/import (these are judged by the oracle and the correspondence stream, incl. the model's wf verdict).",
     "note": "Trusted: Lean kernel (propext/Classical.choice/Quot.sound), the harness (generators, invariants, recorder), holpy's own checker "
             "theory.check_proof as the judge of 'checkable', term printing/parsing for the export comparison, z3 checks switched off "
             "(z3wrapper.check_z3=False). Tactic bodies and Python aliasing are not modelled; copy isolation is checked on real objects only.",
@@ -1344,6 +1382,20 @@ FINDINGS = [
     {"status": "known", "key": "import-fails:inst-tyinst-lost",
      "what": "the textual form of an Inst argument ({x: t, ...}) drops its type instantiation: a line `apply_theorem_for finite_empty, {}` "
              "(set.finite_subset after apply_backward_step finite_empty) is exported without 'a := 'a and fails its re-check after import"},
+    {"status": "known", "key": "recheck-fails:assumption-cited-twice:revert_intro",
+     "what": "revert_intro when introduction has identified two equal assumptions (generated goal C, steps cases A, cases A, introduction on "
+             "`A --> A --> C`, revert_intro 0.3 fact 0.0): both citations of the assumption are dropped from the intros line and the state "
+             "no longer re-checks (A --> C derived for the stated A --> A --> C)"},
+    {"status": "known", "key": "recheck-fails:repeated-exists-elim:exists_elim",
+     "what": "a second exists_elim in a scope that already has one (generated goal ~B --> (?x. Q x & Q x) --> ~B, exists_elim with names k at a "
+             "later gap, then exists_elim with names k1 at an earlier gap): the intros line keeps a hypothesis Q k1 & Q k1 and the state "
+             "does not re-check"},
+    {"status": "fixed", "key": "import-fails:cases:TypeInferenceException:_Unspecified_type_Var(k,", "commit": "fixes/C13-8.patch",
+     "what": "get_vars(id) put the variable declared at line id in scope of a line inserted before it (nat.mult_1_right: new_var k at 0, "
+             "cut `k` at 0): the export mentions k before its declaration and cannot be re-imported"},
+    {"status": "fixed", "key": "recheck-fails:apply_backward_step:CheckProofException:_output_does_not", "commit": "fixes/C13-9.patch",
+     "what": "apply_tactic replaced the goal by a line with a weaker sequent when a cited fact has a hypothesis the goal lacks "
+             "(generated goal (A --> B) --> ~B --> ~A: cut ~B x3, revert_intro 5/1, apply_backward_step negE_gen goal 4 fact 2)"},
     {"status": "fixed", "key": "import-fails:induction:TypeError:", "commit": "fixes/C13-1.patch",
      "what": "a state with an apply_induct line (any use of the induction method, e.g. list.append_right_neutral) could not be re-imported: "
              "parser.parse_args had no case for Tuple[str, Term, Term]"},
